@@ -11,6 +11,9 @@ A *case* is a JSON-able dict: {"fam", "shape", "chunks", "acc", "index", ["pre"]
   ["a",[..],dtype] numpy int array (any nesting)   ["bl",[..]] python bool list
   ["ba",nested] numpy bool array   ["dai",v,chunks] dask int array (0-d when v is an int)
   ["dab",nested,chunks] dask bool array   ["f",v] float   ["b",v] python bool   ["np0",v] 0-d numpy int
+Optional keys: "post" = follow-on ops applied to the indexed array (["getitem", index-spec],
+["sum", axis], ["add", k], ["T"]), "hist" = {"chunks_first", "recompute"} (evaluate `.chunks` first;
+compute the ORIGINAL indexed collection again after the derived one), "config" = dask config.
 `run_case(case)` is deterministic from the dict alone (replay).
 """
 from __future__ import annotations
@@ -385,8 +388,11 @@ KNOWN_CLASSES = [
      [{"fam": "blocks", "shape": [1, 4], "chunks": [[1], [4]], "acc": "blocks", "index": [["s", None, 2, -1]]},
       {"fam": "blocks", "shape": [5, 2], "chunks": [[5], [2]], "acc": "blocks", "index": [["s", -9, None, -1], ["i", 0]]}]),
     ("daint:with-slice:AttributeError",
+     # (on a single-chunk array integers and unit-step slices work; other steps crash as well)
      lambda c: c["acc"] == "getitem" and any(s[0] == "dai" for s in c["index"]) and
-     any(s[0] in ("i",) or (s[0] == "s" and not _colon(s)) for s in c["index"]), ("crash:AttributeError",),
+     ((any(s[0] in ("i",) or (s[0] == "s" and not _colon(s)) for s in c["index"]) and
+       any(len(ch) > 1 for ch in c["chunks"])) or
+      any(s[0] == "s" and s[3] not in (None, 1) for s in c["index"])), ("crash:AttributeError",),
      [{"fam": "daint", "shape": [3, 4], "chunks": [[2, 1], [3, 1]], "acc": "getitem", "index": [["dai", [2, 0], [[1, 1]]], ["s", None, 2, None]]},
       {"fam": "daint", "shape": [3, 4], "chunks": [[2, 1], [3, 1]], "acc": "getitem", "index": [["dai", -2, None], ["s", None, 2, None]]}]),
     ("daint:out-of-bounds-accepted",
@@ -430,8 +436,85 @@ def avoid(case):
     return False
 
 
+def apply_post(y, post, for_dask):
+    for op in post:
+        if op[0] == "getitem":
+            y = y[build_index(op[1], for_dask)]
+        elif op[0] == "sum":
+            y = y.sum(axis=op[1])
+        elif op[0] == "add":
+            y = y + op[1]
+        elif op[0] == "T":
+            y = y.T
+        else:
+            raise ValueError(op)
+    return y
+
+
+def run_post_case(case):
+    """index, then follow-on ops on the result (slices on other axes, reductions, elemwise), then —
+    history — compute the original indexed collection again: every value vs NumPy."""
+    import dask
+
+    out = []
+    x, d0 = None, None
+    try:
+        x, _ = make_arrays(case)
+        wbase = np.asarray(x[build_index(case["index"], False)])
+        wpost = np.asarray(apply_post(wbase, case["post"], False))
+    except Exception:
+        return []  # not a valid NumPy program: outside this family's domain
+    hist = case.get("hist", {})
+    for opt in (True, False):
+        cfg = {"array.optimize-graph": opt, "scheduler": "sync"}
+        cfg.update(case.get("config", {}))
+        kind, detail = None, {"optimize": opt}
+        with dask.config.set(cfg), warnings.catch_warnings():
+            warnings.simplefilter("ignore")
+            stage = "index"
+            try:
+                _, d = make_arrays(case)
+                y = d[build_index(case["index"], True)]
+                if hist.get("chunks_first"):
+                    _ = y.chunks
+                stage = "post"
+                z = apply_post(y, case["post"], True)
+                rz = np.asarray(z.compute())
+                if rz.shape != wpost.shape:
+                    kind = "post-shape"
+                elif not np.array_equal(rz, wpost):
+                    kind = "post-values"
+                elif tuple(z.shape) != rz.shape or any(sum(c) != n for c, n in zip(z.chunks, rz.shape)):
+                    kind = "post-chunks-sum"
+                if kind:
+                    detail.update(want_shape=list(wpost.shape), got_shape=list(rz.shape), chunks=repr(z.chunks))
+                if kind is None and hist.get("recompute"):
+                    stage = "recompute"
+                    ry = np.asarray(y.compute())
+                    if ry.shape != wbase.shape:
+                        kind = "recompute-shape"
+                    elif not np.array_equal(ry, wbase):
+                        kind = "recompute-values"
+                    if kind:
+                        detail.update(want_shape=list(wbase.shape), got_shape=list(ry.shape), chunks=repr(y.chunks))
+            except REFUSALS as e:
+                kind = f"{stage}-refuses-valid-program"
+                detail["error"] = type(e).__name__ + ": " + str(e)[:100]
+            except Exception as e:
+                kind = f"{stage}-crash:{type(e).__name__}"
+                detail["error"] = str(e)[:100]
+        if kind:
+            out.append((classify(case, kind), kind, detail))
+    seen = {}
+    for sg, k, dt in out:
+        seen.setdefault(sg, (sg, k, dt))
+    return list(seen.values())
+
+
 def run_case(case):
     """Returns a list of (signature, what, detail)."""
+    if case.get("post"):
+        return run_post_case(case)
     out = []
     try:
         x, d = make_arrays(case)
@@ -537,6 +620,15 @@ def shrink(case, sig, avoid, budget=250):
                     cc2 = [list(q) for q in cur["chunks"]]
                     cc2[ax] = [c[0] + c[1]] + list(c[2:])
                     cands.append({**cur, "chunks": cc2})
+        # fewer follow-on ops / less history / no config
+        if cur.get("post"):
+            for j in range(len(cur["post"])):
+                if len(cur["post"]) > 1:
+                    cands.append({**cur, "post": cur["post"][:j] + cur["post"][j + 1:]})
+            if cur.get("config"):
+                cands.append({k: v for k, v in cur.items() if k != "config"})
+            if cur.get("hist", {}).get("chunks_first"):
+                cands.append({**cur, "hist": {**cur["hist"], "chunks_first": False}})
         # simpler / fewer items
         for j, sp in enumerate(cur["index"]):
             for alt in _simpler_items(sp, None):
@@ -736,6 +828,116 @@ def gen_daint(rng):
     return {"fam": "daint", "shape": shape, "chunks": chunks, "acc": "getitem", "index": items}
 
 
+def gen_daint_multi(rng):
+    """several integer dask indexers in ONE tuple on 3-D/4-D arrays: 0-d dask ints (each drops
+    its axis), at most one 1-d dask int array, plain ints and slices, in every order.  The
+    advanced items are kept adjacent (NumPy moves separated ones to the front: known class) and
+    plain ints / non-trivial slices are only mixed in on single-chunk arrays (known class
+    `daint:with-slice:AttributeError` otherwise)."""
+    nd = rng.choice([3, 3, 4])
+    shape = [rng.randint(2, 6) for _ in range(nd)]
+    single = rng.random() < 0.35
+    chunks = [[n] for n in shape] if single else [list(gen.rand_chunks(rng, n, maxparts=3)) for n in shape]
+    k = rng.randint(2, min(3, nd))          # length of the advanced run
+    a = rng.randint(0, nd - k)              # where it starts
+    kinds = ["i0"] * k
+    if rng.random() < 0.8:
+        kinds[rng.randrange(k)] = "j1"
+    if single and rng.random() < 0.5:
+        q = rng.randrange(k)
+        if kinds[q] == "i0":
+            kinds[q] = "int"
+    if "i0" not in kinds:
+        kinds[rng.choice([q for q in range(k) if kinds[q] != "j1"] or [0])] = "i0"
+    items = []
+    for ax, n in enumerate(shape):
+        if a <= ax < a + k:
+            kd = kinds[ax - a]
+            if kd == "i0":
+                items.append(["dai", rng.randint(-n, n - 1), None])
+            elif kd == "int":
+                items.append(["i", rng.randint(-n, n - 1)])
+            else:
+                v = [rng.randint(-n, n - 1) for _ in range(rng.randint(1, 4))]
+                items.append(["dai", v, [list(gen.rand_chunks(rng, len(v), maxparts=2))]])
+        elif single and rng.random() < 0.4:
+            sl = gen.rand_slice(rng, n, steps=(None, 1, 1, 1, 2, -1))
+            items.append(["s", sl.start, sl.stop, sl.step])
+        else:
+            items.append(["s", None, None, None])
+    while items and _colon(items[-1]) and rng.random() < 0.5:
+        items.pop()
+    return {"fam": "daint-multi", "shape": shape, "chunks": chunks, "acc": "getitem", "index": items}
+
+
+def gen_take_post(rng):
+    """a list/array take, then follow-on ops (basic slices on the other axes or a unit slice on
+    the take axis, reductions, elemwise), then the original collection computed again."""
+    nd = rng.choice([2, 2, 3])
+    ax = rng.randrange(nd)
+    shape = [rng.randint(2, 6) for _ in range(nd)]
+    shape[ax] = rng.randint(4, 12)
+    n = shape[ax]
+    chunks = [list(gen.rand_chunks(rng, m, maxparts=4)) for m in shape]
+    if rng.random() < 0.6:  # a few equal chunks on the take axis so that groups overflow the limit
+        c = rng.randint(2, 4)
+        chunks[ax] = [c] * (n // c) + ([n % c] if n % c else [])
+    style = rng.random()
+    if style < 0.55:   # sorted subset with holes: runs per input chunk of uneven length
+        v = [q for q in range(n) if rng.random() < 0.7] or [0]
+    elif style < 0.75:
+        v = sorted(rng.randint(0, n - 1) for _ in range(rng.randint(2, n + 2)))
+    else:
+        v = [rng.randint(-n, n - 1) for _ in range(rng.randint(1, n + 2))]
+    items = [["s", None, None, None] for _ in shape]
+    items[ax] = ["l", v] if rng.random() < 0.6 else ["a", v, "intp"]
+    items = items[: ax + 1]
+    oshape = list(shape)
+    oshape[ax] = len(v)
+    post = []
+    for _ in range(rng.randint(1, 2)):
+        r = rng.random()
+        cur_nd = len(oshape)
+        if r < 0.6 and cur_nd:
+            sub = []
+            for k2, m in enumerate(oshape):
+                if k2 == ax and rng.random() < 0.7:
+                    sub.append(["s", None, None, None])
+                elif rng.random() < 0.15 and m and len(oshape) > 1:
+                    sub.append(["i", rng.randint(0, m - 1)])
+                else:
+                    lo = rng.randint(0, max(0, m - 1))
+                    hi = rng.randint(lo, m)
+                    sub.append(["s", lo if rng.random() < 0.8 else None, hi if rng.random() < 0.8 else None,
+                                rng.choice([None, None, 1, 2]) if k2 != ax else None])
+            post.append(["getitem", sub])
+            new_shape = []
+            for sp, m in zip(sub, oshape):
+                if sp[0] == "s":
+                    new_shape.append(len(range(*slice(sp[1], sp[2], sp[3]).indices(m))))
+                elif sp[0] != "i":
+                    new_shape.append(m)
+            if any(sp[0] == "i" for sp in sub):
+                ax = -1  # axis bookkeeping no longer needed
+            oshape = new_shape
+        elif r < 0.8 and cur_nd:
+            a2 = rng.randrange(cur_nd)
+            post.append(["sum", a2])
+            oshape = [m for k2, m in enumerate(oshape) if k2 != a2]
+            ax = -1
+        elif r < 0.92:
+            post.append(["add", rng.randint(1, 3)])
+        elif cur_nd >= 2:
+            post.append(["T"])
+            oshape = oshape[::-1]
+            ax = -1
+    case = {"fam": "take-post", "shape": shape, "chunks": chunks, "acc": "getitem", "index": items, "post": post,
+            "hist": {"chunks_first": rng.random() < 0.5, "recompute": rng.random() < 0.8}}
+    if rng.random() < 0.5:
+        case["config"] = {"array.chunk-size": rng.choice(["16B", "64B", "256B"])}
+    return case
+
+
 def gen_vindex(rng):
     shape, chunks = rand_shape_chunks(rng, zero_chunks=0.0)
     nd = len(shape)
@@ -843,6 +1045,7 @@ def gen_exotic(rng):
 GENS = [
     (gen_basic, 5), (gen_list, 3), (gen_two_lists, 0.4), (gen_npbool, 1.2), (gen_dabool, 1.2), (gen_daint, 1.0),
     (gen_vindex, 1.5), (gen_blocks, 1.5), (gen_unknown, 1.5), (gen_exotic, 0.3),
+    (gen_daint_multi, 1.2), (gen_take_post, 1.6),
 ]
 
 
@@ -850,6 +1053,8 @@ def case_key(case, res):
     spec = case["index"]
     kinds = tuple(sorted({s[0] for s in spec}))
     neg = any(s[0] == "s" and s[3] is not None and s[3] < 0 for s in spec)
+    if case.get("post"):
+        kinds = kinds + tuple(op[0] for op in case["post"]) + (bool(case.get("hist", {}).get("chunks_first")),)
     return (case["fam"], kinds, neg, len(case["shape"]), len(spec) < len(case["shape"]),
             any(len(c) > 1 for c in case["chunks"]), bool(case.get("pre", {}).get("ccs")))
 
@@ -1195,9 +1400,10 @@ def run(ctx, replay=None):
     warnings.simplefilter("ignore")
     ctx.rule = (
         "correspondence: exhaustive 1-D domain (see exhaustive_domain) + seeded random n-D tuples (rank ≤ 4); distinct by "
-        "(family, model-output prefix, #items, Ellipsis/None/list present). search: seeded random cases from 10 generator "
-        "families (basic, list, two-lists, numpy bool, dask bool, dask int, vindex, blocks, unknown-chunks ± compute_chunk_sizes, "
-        "exotic types) on from_array(arange(prod(shape)).reshape(shape), random chunks incl. zero-length), each evaluated "
+        "(family, model-output prefix, #items, Ellipsis/None/list present). search: seeded random cases from 12 generator "
+        "families (basic, list, two-lists, numpy bool, dask bool, dask int, several dask ints (0-d/1-d) mixed with ints and slices "
+        "on 3-D/4-D arrays, vindex, blocks, unknown-chunks ± compute_chunk_sizes, exotic types, list take followed by slices/"
+        "reductions/elemwise ops and re-computation of the original collection under small array.chunk-size) on from_array(arange(prod(shape)).reshape(shape), random chunks incl. zero-length), each evaluated "
         "optimized and with array.optimize-graph=False against NumPy / brute force; distinct by (family, item kinds, negative "
         "step, rank, short index, multi-chunk, chunk sizes computed)"
     )
